@@ -84,6 +84,15 @@ def classify_escape(point, src, exc):
     return None
 
 
+ODD_CHARS = ["\udcff", "\ud800", "\udc80\udcc3", "\ud83d", "\uffff", "\U0010ffff", "\x85", "\ufffe"]
+ODD_TEMPLATES = [
+    "@@", "x = f'@@{a}' + b\n", "x = f'{a}@@' + b\n", "x = f'{a:@@>3}' + b\n", "x = f'''{a=}@@''' + b\n", "x = f'{a!r:@@}{b}'\n", "x = rf'@@{a}' , b\n", "f!(@@) + x\n", "f!(a, @@ b)(c)\n", "x = $(ls! @@) + y\n",
+    "![echo! @@] ; z\n", "x = `@@.*` + y\n", "x = g`@@` + y\n", "with! c:\n    @@\nx = 1\n", "with! c: @@\nx = 1\n", "x = '@@' + y\n", "x = b'@@' + y\n", "x = p'@@' / y\n", "x = pf'@@{a}' / y\n",
+    "# @@\nx = 1\n", "x = 1  # @@\ny = 2\n", "$(echo @@) + x\n", "x = $@@ + y\n", "@@ = 1 + y\n", "x = @@ + y\n", "x@@?\n", "$[ls @@ a] ; y\n", "x = @(a@@) + y\n", "x = '''\n@@\n''' + y\n", "def f(a@@): pass\n",
+    "x = y  @@\n", "x = (y,\n @@ z)\n", "type @@ = int\n", "x = f'{a}' '@@' f'{b}'\n", "x = f'{a!@@}'\n", "x = f'{@@}'\n", "x = 1 if @@ else f!(@@)\n", "aé = f'@@{a}'\n", "é; f!(@@); $(ls! @@)\n",
+]
+
+
 def _crude_depth(src):
     """nesting measure for inputs CPython's tokenizer may reject: brackets, indentation, and the right-recursive chains
     (unary operators, not, lambda, conditional expressions, power) that also cost one recursion level per element"""
@@ -173,6 +182,12 @@ def run_shard(shard):
         for i, ch in enumerate(gen_xonsh.HOSTILE):
             for tmpl in ("{}", "x = 1 {}", "x = 'a' {}\n", "{} x\n", "f(a, {} b)\n", "if a:\n    {}\n", "$(ls {})\n", "x = [1, {}\n 2]\n", "f'{{a}} {}'\n", "'''a\n{}\nb'''\n"):
                 go(tmpl.format(ch), None)
+        # characters no UTF-8 text holds but a Python str can (lone surrogates, as os.fsdecode yields for undecodable file names), and
+        # noncharacters: placed where the source text is taken over verbatim or measured (byte columns) *before* a later node
+        for ch in ODD_CHARS:
+            for tmpl in ODD_TEMPLATES:
+                go(tmpl.replace("@@", ch), None)
+                acc.count("class_odd_char_in_verbatim_text")
     elif kind == "fstrings":
         from . import c10
 
@@ -215,6 +230,10 @@ def run_shard(shard):
             s = rnd.choice(pool)
             if rnd.random() < 0.3:
                 s += rnd.choice(pool)
+            if rnd.random() < 0.06:
+                k = rnd.randrange(len(s) + 1)
+                s = s[:k] + rnd.choice(ODD_CHARS) + s[k:]
+                acc.count("class_odd_char_inserted")
             r = rnd.random()
             if r < 0.6:
                 go(gen_xonsh.char_edits(rnd, s))
